@@ -24,7 +24,7 @@ TIERS = {
     "quick": dict(plans=280, budget_s=70, worlds=4, det_plans=2),  # (one walk through the applicable grid and a bit)
     "thorough": dict(plans=6000, budget_s=900, worlds=150, det_plans=8, always_selftest=True),
 }
-LOSSES = ["contig_absent", "neutral_contig_absent", "depth_just_below", "depth_just_above", "locus_skipped", "locus", "locus_decoy_sam", "locus_sliver", "gene_only", "neutral", "neutral_sparse", "empty", "depth_below", "depth_above", "stream_error", "seam_drop_locus"]
+LOSSES = ["thin", "contig_absent", "neutral_contig_absent", "depth_just_below", "depth_just_above", "locus_skipped", "locus", "locus_decoy_sam", "locus_sliver", "gene_only", "neutral", "neutral_sparse", "empty", "depth_below", "depth_above", "stream_error", "seam_drop_locus"]
 ROUTES = ["yml", "bam", "cn", "cn_dump"]
 OUTS = ["aldy", "vcf", "simple", "none"]
 # full factorial of loss x route x output x {single, multi}; a batch walks through it
@@ -35,7 +35,7 @@ def applicable(loss, route, multi):
     if route == "cn_dump":
         # history: the lossy sample is genotyped with --debug and a user-supplied structure, then the
         # archive is genotyped; only for the losses that leave the whole locus without reads
-        return loss in ("locus", "empty") and not multi
+        return loss in ("locus", "empty", "thin") and not multi
     if loss == "neutral_contig_absent":
         # the header does not list the chromosome of the neutral region (only consulted with a profile)
         return route in ("yml", "bam") and not multi
@@ -101,7 +101,10 @@ def gen_plan(rng, tier, i, seed):
             # read covers must still be refused
             "min_avg_zero": rng.random() < 0.3,
             # multi-gene run: the healthy gene listed before or after the gene that lost its data
-            "healthy_first": rng.random() < 0.5}
+            "healthy_first": rng.random() < 0.5,
+            # history: the archive was written by an earlier aldy, whose stored profile lacks the parameters
+            # added since (the loader fills in their documented defaults)
+            "old_archive": rng.random() < 0.5}
 
 
 def _materialise(runner, w):
@@ -138,7 +141,8 @@ def execute(plan, runner, rundir):
                               out=plan["out"], loss=plan["loss"], multi=plan["multi"], avg=pil["avg_a"],
                               k=plan["k"], which_open=plan["which_open"], err=plan["err"],
                               warm=plan.get("warm", False), min_avg_zero=plan.get("min_avg_zero", False),
-                              healthy_first=plan.get("healthy_first", False)))
+                              healthy_first=plan.get("healthy_first", False),
+                              old_archive=plan.get("old_archive", False)))
     return {"pilot": pil, "run": res}
 
 
@@ -164,7 +168,7 @@ def judge(plan, outcome):
     called = bool(res_a) and any(len(x[1]) > 0 for x in res_a)
     has_del = any(al["kind"] == "deletion" for al in ga["alleles"]) and ga["pregions"] is not None
     fired = r["fired"]
-    expect_error = loss in ("contig_absent", "neutral_contig_absent", "depth_just_below", "locus_skipped", "locus", "locus_decoy_sam", "neutral", "neutral_sparse", "empty", "depth_below", "seam_drop_locus")
+    expect_error = loss in ("thin", "contig_absent", "neutral_contig_absent", "depth_just_below", "locus_skipped", "locus", "locus_decoy_sam", "neutral", "neutral_sparse", "empty", "depth_below", "seam_drop_locus")
     if loss == "gene_only" and not has_del:
         # reads cover the pseudogene but the database has no whole-gene deletion allele: the statement
         # does not say what must happen (the locus is covered, a deletion cannot be called)
@@ -393,6 +397,15 @@ def _lossy_bam(seg, world, smp, loss, path):
         W.write_bam(path, world, kept + extra, build=seg["build"])
         return n_all, len(kept)
     kept = [r for r in reads if not any(r[0] < b and a < ref_end(r) for a, b in spans)]
+    if loss == "thin":
+        # every n-th read of the locus survives: evenly covered at an average depth between 0 and about
+        # 1, below the documented default minimum of 2 (no parameter is given)
+        regs = list(ga["regions"]) + list(ga["pregions"] or [])
+        lo, hi = min(a for _, a, b in regs), max(b for _, a, b in regs)
+        inside = sorted((r for r in reads if r[0] < hi and lo < ref_end(r)), key=lambda r: (r[0], r[3]))
+        stride = int(seg["avg"]) + 2
+        keep_in = set(r[3] for r in inside[::stride])
+        kept = [r for r in reads if not (r[0] < hi and lo < ref_end(r)) or r[3] in keep_in]
     if loss == "locus_sliver":
         # of all locus reads only those touching the gene's `up` region survive (full depth there and a
         # little spill-over into the first exon; nothing anywhere else in the locus)
@@ -407,6 +420,31 @@ def _lossy_bam(seg, world, smp, loss, path):
         kept += inside[:1]
     W.write_bam(path, world, kept, build=seg["build"])
     return n_all, len(kept)
+
+
+def _age_archive(arch):
+    """The archive as an aldy before the parameters display_format / debug_probe / debug_novel /
+    min_avg_coverage existed would have written it: the stored profile has no such attributes."""
+    import gzip
+    import io
+    import pickle
+    import tarfile
+
+    with tarfile.open(arch, "r:gz") as t:
+        items = [(m, t.extractfile(m).read() if m.isfile() else None) for m in t.getmembers()]
+    out = []
+    for m, data in items:
+        if data is not None and m.name.endswith(".dump"):
+            tup = list(pickle.loads(gzip.decompress(data)))
+            for n in ("display_format", "debug_probe", "debug_novel", "min_avg_coverage"):
+                tup[1].__dict__.pop(n, None)
+            data = gzip.compress(pickle.dumps(tuple(tup)), mtime=0)
+            m.size = len(data)
+            SIM.fire("archive_aged")
+        out.append((m, data))
+    with tarfile.open(arch, "w:gz") as t:
+        for m, data in out:
+            t.addfile(m, io.BytesIO(data) if data is not None else None)
 
 
 def run_segment(seg):
@@ -461,7 +499,7 @@ def run_segment(seg):
     effective = True
     records = None
     stream = None
-    if loss in ("contig_absent", "neutral_contig_absent", "locus_skipped", "locus", "locus_decoy_sam", "locus_sliver", "gene_only", "neutral", "neutral_sparse", "empty"):
+    if loss in ("thin", "contig_absent", "neutral_contig_absent", "locus_skipped", "locus", "locus_decoy_sam", "locus_sliver", "gene_only", "neutral", "neutral_sparse", "empty"):
         sam_path = os.path.join(rd, "s0.sam" if loss == "locus_decoy_sam" else "s0.bam")
         records = _lossy_bam(seg, world, smp, loss, sam_path)
         effective = records[1] < records[0]
@@ -505,6 +543,8 @@ def run_segment(seg):
         O.run_main(["genotype", sam_path, "--gene", dba, "--cn", "1,1", "--debug", prefix, "--solver", "cbc"])
         if os.path.exists(prefix + ".tar.gz"):
             sam_path = prefix + ".tar.gz"  # ... and genotype the archive instead of the alignments
+            if seg.get("old_archive"):
+                _age_archive(sam_path)
     rec = O.run_genotype(db, sam_path, prof, outp, cn_region=cnr, cn_solution=cns, params=params)
     rec.pop("_raw", None)
     if loss == "seam_drop_locus":
